@@ -705,6 +705,8 @@ fn free_text() -> BoxedStrategy<String> {
     prop_oneof![
         4 => "[A-Za-z0-9_: ]{1,12}",
         2 => prop::sample::select(vec!["timeing: ", "a&b", "x<y", "\"quoted\"", "it's", "ünï€", " lead", "trail ", "a > b", "]]>", "DLT_TYPE_LOG", "DLT_LOG_WARN", "日本"]).prop_map(|s| s.to_string()),
+        // single characters, also the ones text is usually wrapped in
+        1 => prop::sample::select(vec!["\"", "'", "(", "[", "{", "%", "x", "é", "-"]).prop_map(|s| s.to_string()),
     ]
     .boxed()
 }
